@@ -290,6 +290,12 @@ func (cd *codeStore) Last() uint32 {
 	if cd.pc == 0 {
 		return opInvalidInstruction
 	}
+	if cd.pc > 1 {
+		if prev := cd.codes[cd.pc-2]; opGetOpCode(prev) == OP_SETLIST && opGetArgC(prev) == 0 {
+			// the last word is the batch number of an extended SETLIST: data, not an instruction
+			return opInvalidInstruction
+		}
+	}
 	return cd.codes[cd.pc-1]
 }
 
